@@ -91,6 +91,7 @@ def run_case(spec):
     closed_by_app = [False, False]
 
     attached_alive = [False, False]
+    partial = [None, None]
 
     def attach_consumer(d):
         rx = conns[1 - d]
@@ -106,6 +107,13 @@ def run_case(spec):
         else:
             c = RecordingConsumer()
             consumers[d] = c
+            if plans[d] and rng.random() < 0.4:
+                # a multi-part session: the consumer takes the first k records, the rest is read with
+                # receive_record() afterwards
+                k = rng.randint(1, len(plans[d]))
+                if sum(len(x) for x in plans[d][:k]) > 0:      # (expected=0 has its own documented behaviour)
+                    total = sum(len(x) for x in plans[d][:k])
+                    partial[d] = k
             dd = rx.connectConsumer(c, expected=total)
         consumer_d[d] = Result(dd) if dd is not None else None
     for d in (0, 1):
@@ -241,7 +249,7 @@ def run_case(spec):
                       [len(x) for x in plans[0]][:10], [len(x) for x in plans[1]][:10], sch.tiny_budget]
     return {"violations": viol, "nontrivial": nontrivial,
             "counters": {"records_surfaced": total_surfaced, "tampers_fed": tampers_fed,
-                         "clean_complete": int(clean and not viol), "records_sent": sent[0] + sent[1],
+                         "clean_complete": int(clean and not viol), "partial_consumers": sum(1 for x in partial if x is not None), "records_sent": sent[0] + sent[1],
                          "bytes": sum(len(x) for p in plans for x in p), "steps": world.step,
                          **{"mode_" + m: 1 for m in modes}},
             "sample": {"spec": spec, "modes": modes, "sizes0": [len(x) for x in plans[0]][:12], "sizes1": [len(x) for x in plans[1]][:12],
